@@ -264,12 +264,22 @@ fn gen_body(r: &mut Rng, p: &Prog, fidx: usize, param: K, ncaps: usize, len: usi
                 }
             }
             29 => {
-                // tail call into a later function (no loops)
-                if let Some(K::Fn(fi)) = &top
-                    && st.len() >= 2
-                    && *fi > fidx
-                    && r.chance(1, 3)
-                {
+                // tail call into a later function (no loops); make sure the frame's locals hold
+                // heap binaries at that moment
+                if fidx + 1 < nfuncs && r.chance(1, 2) {
+                    let fi = fidx + 1 + r.usize(nfuncs - fidx - 1);
+                    let caps = p.functions[fi].captures;
+                    out.push(Instruction::Constant(*r.pick(&bins)));
+                    out.push(Instruction::Store);
+                    out.push(Instruction::Constant(*r.pick(&bins)));
+                    out.push(Instruction::Constant(*r.pick(&bins)));
+                    out.push(Instruction::Tuple(2));
+                    out.push(Instruction::Store);
+                    out.push(Instruction::Constant(*r.pick(&bins)));
+                    for _ in 0..caps {
+                        out.push(Instruction::Constant(*r.pick(&bins)));
+                    }
+                    out.push(Instruction::Function(fi));
                     out.push(Instruction::TailCall(false));
                     return out;
                 }
